@@ -412,7 +412,7 @@ def programs(seed, n, extreme=False, compound=False, disj=True, **kw):
             p = rare_evidence_program(rng)
         elif compound and r > 0.85:
             p = compound_program(rng)
-        elif g.neg_cycles and r < 0.5:
+        elif g.neg_cycles and r < 0.7:
             p = negcycle_program(rng, evidence=g.evidence)
         elif not g.neg_cycles and g.recursion and r < 0.25:
             p = graph_program(rng, evidence=g.evidence, negation=g.negation)
